@@ -30,6 +30,14 @@ def plan(tier, seed, kf_ids):
             jobs.append(Job(name, tmpl % (name, t, i, f), "for every value of %s: %s" % (al, desc), timeout=3000, inst=al,
                             bounds="all 256 values" + ("; p <= 8" if kind == "prec" else "") + ("; widths <= 12" if kind.startswith("flags") else ""),
                             mem_gb=20))
+    # 16-bit layouts: the half-width delegation (nbits < NBITS/2 -> narrower word) sits exactly at f = 8
+    for (s, f) in ([("U", 8)] if q else [("U", 8), ("U", 7), ("I", 9), ("I", 8)]):
+        t, i, al, tg = c.ty(s, 16, f), c.inner(s, 16), c.alias(s, 16, f), c.tag(s, 16, f)
+        for kind, tmpl, desc in (("display", "c09_display!(%s, %s, %s, %d);", "{}: correctly rounded digits, sign"),
+                                 ("roundtrip", "c09_roundtrip!(%s, %s, %s, %d);", "FromStr({:?} output) == x through the real parser")):
+            name = "c09_%s_%s" % (kind, tg)
+            jobs.append(Job(name, tmpl % (name, t, i, f), "for every value of %s: %s" % (al, desc), timeout=900, inst=al,
+                            bounds="all 65536 values", mem_gb=20))
     for k in kf_ids:
         jobs.append(Job("kfw_" + k, "", "witness of known finding %s (concrete operands)" % k, timeout=900, kf=k,
                         inst="witness", bounds="concrete operands"))
@@ -42,7 +50,7 @@ def plan(tier, seed, kf_ids):
                       "from_str.rs (round trip through the real parser)"],
         "bounds": "8-bit types (quick: nine (kind, layout) obligations of 6-14 min each, thorough: every kind on all 18 layouts): every value; precision 0..=8; widths 0..=12 with six "
                   "flag combinations; output buffer 26 bytes; loops unwound 28",
-        "outside": ["16/32/64/128-bit types (the fmt machinery on wider words does not finish in the time available)",
+        "outside": ["32/64/128-bit types; 16-bit types beyond Display/Debug of U8F8 (quick) / U8F8, U9F7, I7F9, I8F8 (thorough): 4-6 min per query",
                     "precision > 8, width > 12, other fill/flag combinations"],
         "assumptions": ["core::str::from_utf8 is stubbed by an ASCII-asserting equivalent (display.rs only passes its own digit buffer)"],
         "stubs": ["core::str::from_utf8 -> c09::ascii_from_utf8"],
